@@ -1,5 +1,11 @@
 package main
 
+import (
+	"strings"
+
+	"golang.org/x/tools/go/packages"
+)
+
 func init() {
 	register(&Property{
 		ID:        "C01",
@@ -16,6 +22,41 @@ func init() {
 			{ID: "R01.3", Title: "scope recording: each ClosureLiteral carries the very Names/OuterIdents/Recursive its body was parsed with", Floor: 3, Run: ruleR013},
 			{ID: "R01.5", Title: "frame-layout algebra: Get/Push/CreateFrame/Init and the storage address exactly offs+n / offs+size / {offs+size-n, n}", Floor: 8, Run: ruleR015},
 			{ID: "R01.4", Title: "captured-name agreement between parseLiteral (emitted identifier names) and AddArgs (recorded outer names)", Floor: 1, Run: ruleR014},
+		},
+	})
+	register(&Property{
+		ID:        "C02",
+		Technique: "guard dominance on per-function CFGs (purity and commutativity flags dominate every Generate-time execution), conjunct-closure check of purity propagation, who-may-call check of the recovering optimizer entry, flag/implementation witness tables, sibling agreement of generator and optimizer dispatch",
+		Explanation: "Decides that the optimizer executes operator/function implementations at Generate time only under the IsPure flag of the very descriptor it executes, regroups only under IsCommutative/same-operator, " +
+			"that the generator's purity result conjoins the purity of every sub expression and statically bound callee, that declared flags have no asymmetry/impurity witness in the implementation, that optimizer code is reachable only through the recovering wrapper, " +
+			"and that optimizer and generator consult the same handlers per AST node kind. Not decided: equality of folded and run-time values, execution counts, purity of host functions and methods.",
+		Assumptions: []string{"unary operators and the list/map/closure handlers are pure (they carry no purity flag)", "host-declared IsPure/IsCommutative flags of host operators are truthful"},
+		Rules: []*Rule{
+			{ID: "R02.1", Title: "purity-guarded folding: Impl.Calc / Function.Func run at Generate time only under the same descriptor's IsPure", Floor: 6, Run: ruleR021},
+			{ID: "R02.2", Title: "regroup guard: rebuilt Operate nodes only under IsCommutative and same operator", Floor: 2, Run: ruleR022},
+			{ID: "R02.3", Title: "purity propagation: every returned purity conjoins all child purities and statically bound callee flags", Floor: 15, Run: ruleR023},
+			{ID: "R02.4", Title: "declared flags vs implementation: commutative operators have no asymmetry witness and are not compiled lazily; pure functions reach no source of non-determinism", Floor: 19, Run: func(c *Ctx) {
+				ruleR024(func(p *packages.Package) bool { return !strings.HasSuffix(p.PkgPath, "/example") || strings.HasSuffix(p.PkgPath, "value/example") })(c)
+				ruleR024a(c)
+			}},
+			{ID: "R02.6", Title: "sibling agreement: optimizer and generated code consult the same handlers to find the callee of a call", Floor: 2, Run: ruleR026},
+			{ID: "R02.5", Title: "panic containment: optimizer code runs only inside parser2.Optimize, which recovers and restores the AST", Floor: 10, Run: ruleR025},
+		},
+	})
+	register(&Property{
+		ID:        "C03",
+		Technique: "symbolic normal forms of the level arithmetic (op+1, opPos+1), loop/accumulator dataflow of the precedence loop, dominator and must-pass-through checks of token tests on per-function CFGs",
+		Explanation: "Decides the structural conditions of the precedence climbing scheme as implemented: one recursion level per operator in table order, left associative accumulation loop whose continuation test is this level's operator, " +
+			"prefix operators that are also binary parse their operand at opPos+1 and every such operator gets its position, a successful Parse has seen EOF behind the top level expression, every consumed token is identified by a Peek test or type checked (keywords/operators also by spelling) before a successful return, implicit '*' only in comfort mode. " +
+			"Not decided: the grouping outcome for arbitrary tables and inputs, maximal munch of the operator detector, the postfix binding order.",
+		Rules: []*Rule{
+			{ID: "R03.1", Title: "one recursion level per operator: nextParserCall descends to parseOp(op+1) while op+1 < len(operators), then parseUnary", Floor: 3, Run: ruleR031},
+			{ID: "R03.2", Title: "left associative accumulation loop in parseOp", Floor: 7, Run: ruleR032},
+			{ID: "R03.3", Title: "prefix operators: operand parsed at opPos+1 under opPos>=0; every prefix operator that is also binary gets its table index", Floor: 3, Run: ruleR033},
+			{ID: "R03.4", Title: "EOF test dominates every successful return of Parse", Floor: 1, Run: ruleR034},
+			{ID: "R03.5", Title: "token consumption discipline: every Next() is justified by a Peek test or its token is checked before success", Floor: 35, Run: ruleR035},
+			{ID: "R03.6", Title: "implicit multiplication bookkeeping only in comfort mode", Floor: 3, Run: ruleR036},
+			{ID: "R03.7", Title: "the parser is purely constructive: grouping never depends on the node kind of an already parsed operand (parentheses are honoured)", Floor: 2, Run: ruleR037},
 		},
 	})
 }
